@@ -152,16 +152,29 @@ class Bounded:
             elif kind == 'ensures':
                 self.post.append(e)
 
+    def snapshots(self):
+        """non-const fresh pointer parameters get a snapshot array old_<name> (visible to full_pre/full_post)."""
+        out = []
+        for nm, size, ty in self.fresh:
+            pty = [t for t, n in self.params if n == nm]
+            if pty and not re.search(r'\bconst\b', pty[0].split('*')[0]):
+                out.append((nm, size, ty))
+        return out
+
     def harness_c(self):
         B = self.bound
-        L = ['/* ---- bounded counterexample harness (generated from the contract) ---- */']
+        L = ['/* ---- bounded harness (generated from the contract) ---- */']
         fresh_names = {n for n, _, _ in self.fresh}
         for nm, size, ty in self.fresh:
             L.append('static %s in_%s[%d];' % (ty, nm, B + 1))
+        for nm, size, ty in self.snapshots():
+            L.append('static %s old_%s[%d];' % (ty, nm, B + 1))
         for ty, nm in self.params:
             if '*' not in ty:
                 L.append('static %s in_%s;' % (base_type(ty), nm))
+        L.append('#define POSTCHECK(c, name) __CPROVER_assert(c, name)')
         L.append(self.sp.sec('fullpre'))
+        L.append(self.sp.sec('fullpost'))
         L.append('void bharness(void)\n{')
         for ty, nm in self.params:
             bt = base_type(ty)
@@ -182,6 +195,8 @@ class Bounded:
             L.append('  __CPROVER_assume(%s);' % e)
         if self.sp.sec('fullpre').strip():
             L.append('  __CPROVER_assume(full_pre(%s));' % ', '.join(n for _, n in self.params))
+        for nm, size, ty in self.snapshots():
+            L.append('  for(Index k_ = 0; k_ < %d; ++k_) old_%s[k_] = in_%s[k_];' % (B + 1, nm, nm))
         args = ', '.join(n for _, n in self.params)
         if self.ret.replace('static', '').replace('inline', '').strip() not in ('void', ''):
             L.append('  %s ret = %s(%s);' % (self.ret, self.fname, args))
@@ -190,6 +205,8 @@ class Bounded:
         for k, e in enumerate(self.post):
             e2 = e.replace('__CPROVER_return_value', 'ret')
             L.append('  __CPROVER_assert(%s, "post.%d: %s");' % (e2, k + 1, e.replace('"', "'")[:160]))
+        if self.sp.sec('fullpost').strip():
+            L.append('  full_post(%s);' % args)
         L.append('}')
         return '\n'.join(L)
 
@@ -313,6 +330,8 @@ static inline float bits2f(unsigned b) { float d; std::memcpy(&d, &b, 4); return
 #define FEAT_max(a, b) ((a) < (b) ? (b) : (a))
 #define FEAT_eps(T) %(eps)s
 #define NMAX 0x3fffffffUL
+#define SAME(a, b) ((a) == (b) || ((a) != (a) && (b) != (b)))
+#define MP_SAME(a, b) SAME(a, b)
 '''
 
 RING_CLASS = r'''
@@ -364,10 +383,15 @@ class Native:
                 dd[k] = v or '1'
         DT = dd.get('DT_', 'double')
         IT = dd.get('IT_', 'unsigned int')
+        if sp.meta.get('native_dt'):
+            # region cuts are replayed through the real container classes, instantiated with double: the ring
+            # counterexample consists of integers < 256, every intermediate value is an exact integer < 2^53
+            DT = sp.meta['native_dt']
+            dd = dict(dd, DT_=DT)
         ring = DT in ('uint8_t', 'unsigned char')
         head = NATIVE_HEAD % dict(
             ring_class=RING_CLASS if ring else '', ring_glue=RING_GLUE if ring else '',
-            header=sp.meta.get('native_header'), extra_includes='\n'.join('#include <%s>' % h for h in sp.lst('native_includes')),
+            header=sp.meta.get('native_header', 'kernel/util/math.hpp'), extra_includes='\n'.join('#include <%s>' % h for h in sp.lst('native_includes')) + ('\n#include "%s"' % os.path.join(HERE, 'native', 'glue.hpp') if sp.sec('native_glue').strip() else ''),
             DT='Z256' if ring else DT, IT={'uint32_t': 'std::uint32_t', 'uint64_t': 'std::uint64_t'}.get(IT, IT),
             typedefs='\n'.join('typedef %s %s;' % (v, k) for k, v in dd.items() if k not in ('DT_', 'IT_') and re.fullmatch(r'[\w ]+_t|double|float|int|unsigned', v) and k.endswith('_')),
             eps='DT_(0)' if ring else '2.220446049250313080847263336181640625e-16')
@@ -384,6 +408,11 @@ class Native:
         L.append('static int n_pre_bad = 0, n_post_bad = 0;')
         L.append('#define CHECK_PRE(e) do { if(!(e)) { ++n_pre_bad; std::printf("REPLAY-INVALID precondition does not hold on this input: %s\\n", #e); } } while(0)')
         L.append('#define CHECK_POST(k, e) do { if(!(e)) { ++n_post_bad; std::printf("POSTCONDITION-FAILS post.%d: %s\\n", k, #e); } else std::printf("postcondition holds post.%d\\n", k); } while(0)')
+        L.append('#define POSTCHECK(c, name) do { if(!(c)) { ++n_post_bad; std::printf("POSTCONDITION-FAILS %s\\n", name); } } while(0)')
+        for nm, size, ty in bd.snapshots():
+            L.append('static %s old_%s[%d];' % (base_type(ty), nm, bd.bound + 1))
+        L.append('/*FULLPRE*/')
+        L.append(sp.sec('fullpost'))
         L.append('int main()\n{')
         fresh = {n: (size, ty) for n, size, ty in bd.fresh}
         # scalars first (sizes depend on them)
@@ -425,24 +454,32 @@ class Native:
         if sp.sec('fullpre').strip():
             L.append('  CHECK_PRE(full_pre(%s));' % ', '.join(n for _, n in bd.params))
         L.append('  if(n_pre_bad) { std::printf("REPLAY-INVALID\\n"); return 3; }')
+        for nm, size, ty in bd.snapshots():
+            L.append('  for(Index k_ = 0; k_ < (Index)(%s) && k_ < %d; ++k_) old_%s[k_] = %s[k_];' % (size, bd.bound + 1, nm, nm))
         args = ', '.join(n for _, n in bd.params)
-        call = sp.meta.get('native_call')
-        targs = sp.meta.get('native_targs', 'DT_ IT_').split()
-        if targs and targs != ['none']:
-            call += '<' + ', '.join(targs) + '>'
-        if bd.ret.strip() not in ('void', ''):
-            L.append('  auto ret = %s(%s);' % (call, args))
+        if sp.sec('native_glue').strip():
+            L.append('  { /* native glue: run the real FEAT3 method on these arrays */')
+            L.append(sp.sec('native_glue'))
+            L.append('  }')
         else:
-            L.append('  %s(%s);' % (call, args))
+            call = sp.meta.get('native_call')
+            targs = sp.meta.get('native_targs', 'DT_ IT_').split()
+            if targs and targs != ['none']:
+                call += '<' + ', '.join(targs) + '>'
+            if bd.ret.strip() not in ('void', ''):
+                L.append('  auto ret = %s(%s);' % (call, args))
+            else:
+                L.append('  %s(%s);' % (call, args))
         for k, e in enumerate(bd.post):
             if '__CPROVER_old' in e:
                 continue
             L.append('  CHECK_POST(%d, %s);' % (k + 1, impl_to_c(e.replace('__CPROVER_return_value', 'ret'))))
+        if sp.sec('fullpost').strip():
+            L.append('  full_post(%s);' % args)
         L.append('  std::printf(n_post_bad ? "REPLAY-REPRODUCED %d postcondition(s) fail on the real code\\n" : "REPLAY-NOT-REPRODUCED %d\\n", n_post_bad);')
         L.append('  return n_post_bad ? 1 : 0;\n}')
         src = '\n'.join(L) + '\n'
-        if sp.sec('fullpre').strip():
-            src = src.replace('static int n_pre_bad', sp.sec('fullpre') + '\nstatic int n_pre_bad', 1)
+        src = src.replace('/*FULLPRE*/', sp.sec('fullpre'), 1)
         return src
 
 
@@ -463,10 +500,15 @@ def feat_config_dir():
     return g
 
 
-def native_build_run(src_path, exe, asan=True, timeout=300):
+KERNEL_SRCS = ['kernel/backend.cpp', 'kernel/runtime.cpp', 'kernel/util/memory_pool.cpp', 'kernel/util/dist.cpp', 'kernel/util/statistics.cpp',
+               'kernel/util/dist_file_io.cpp', 'kernel/util/property_map.cpp', 'kernel/util/kahan_summation.cpp']
+
+
+def native_build_run(src_path, exe, asan=True, timeout=300, full=False):
     inc = '-I%s -I%s' % (E.REPO, feat_config_dir())
-    cmd = 'g++ -std=c++17 -O0 -g -w %s %s %s %s -o %s' % ('-fsanitize=address -fno-omit-frame-pointer' if asan else '', inc, src_path,
-                                                       os.path.join(E.REPO, 'kernel/backend.cpp'), exe)
+    full = full or 'native glue' in open(src_path).read()
+    srcs = ' '.join(os.path.join(E.REPO, f) for f in (KERNEL_SRCS if full else KERNEL_SRCS[:1]))
+    cmd = 'g++ -std=c++17 -O0 -g -w %s %s %s %s -o %s' % ('-fsanitize=address -fno-omit-frame-pointer' if asan else '', inc, src_path, srcs, exe)
     rc, out, err, dt = E.sh(cmd, timeout, mem_kb=64 * 1024 * 1024 * 4)
     if rc != 0:
         return None, 'native build failed:\n' + (err or out)[-3000:], cmd
@@ -495,8 +537,8 @@ def make_replay(verif, prop, sp, unit, cfgname, res, uf, wd, tier='quick'):
     found = False
     note = ''
     try:
-        if sp.meta.get('native_call') and sp.meta.get('bounded', 'auto') != 'no':
-            found, note, extra = bounded_and_native(sp, unit, cfgname, wd, base)
+        if (sp.meta.get('native_call') or sp.sec('native_glue').strip()) and sp.meta.get('bounded', 'auto') != 'no':
+            found, note, extra = bounded_and_native(sp, unit, cfgname, wd, base, res)
             rec.update(extra)
         elif sp.sec('native_driver').strip():
             found, note, extra = custom_native(sp, unit, cfgname, wd, base, res)
@@ -511,10 +553,17 @@ def make_replay(verif, prop, sp, unit, cfgname, res, uf, wd, tier='quick'):
     return base + '.json', found
 
 
-def bounded_and_native(sp, unit, cfgname, wd, base):
+def bounded_and_native(sp, unit, cfgname, wd, base, res=None):
     ctext = unit.ctext_plain
     extra = {}
-    for bound in (int(sp.meta.get('bound', BOUND)),):
+    pre_trace = None
+    if res is not None and res.mode == 'bounded':
+        for o in res.failed:
+            if o.get('trace'):
+                pre_trace = o['trace']
+                break
+    cfg0 = sp.configs[cfgname]
+    for bound in (int(cfg0.get('bound', sp.meta.get('bound', BOUND))),):
         bd = Bounded(sp, unit, cfgname, ctext, bound=bound)
         csrc = bd.c_source()
         cfile = os.path.join(wd, '%s.%s.bounded.c' % (sp.name, cfgname))
@@ -523,15 +572,26 @@ def bounded_and_native(sp, unit, cfgname, wd, base):
         inc = '-I%s -I%s' % (os.path.join(HERE, 'shim'), os.path.join(VERIF, 'contracts', 'lib'))
         solver = cfg.get('bounded_solver', cfg.get('solver', 'sat'))
         qdefs = ' '.join(E.shlex.quote(d) for d in cfg.get('defs', '').split())
-        cmd = 'cbmc %s %s %s --function bharness --nondet-static --unwind %d --bounds-check --pointer-check --div-by-zero-check --trace --json-ui -DVERIF_BOUNDED=1 %s' % (
-            inc, qdefs, cfile, bound + 2, E.SOLVERS.get(solver, ''))
-        rc, out, err, dt = E.sh(cmd, int(cfg.get('bounded_timeout', '240')))
-        extra['bounded_cmd'] = cmd
-        extra['bounded_s'] = round(dt, 1)
-        try:
-            js = json.loads(out)
-        except Exception:
-            return False, 'bounded search gave no parseable output: ' + (err or out)[-300:], extra
+        uset = ''
+        if cfg.get('unwindset'):
+            ids = {l.label: l.cbmc_id for l in X.find_loops(ctext)}
+            items = ['%s.%d:%s' % (sp.meta.get('cname'), ids[it.split(':')[0]], it.split(':')[1]) for it in cfg['unwindset'].split() if it.split(':')[0] in ids]
+            if items:
+                uset = ' --unwindset ' + ','.join(items)
+        cmd = ('cbmc %s %s %s --function bharness --nondet-static --unwind %s' + uset + ' --bounds-check --pointer-check --div-by-zero-check --trace --json-ui -DVERIF_BOUNDED=1 %s') % (
+            inc, qdefs, cfile, cfg.get('unwind', str(bound + 2)), E.SOLVERS.get(solver, ''))
+        if pre_trace is not None:
+            js = [{'result': [{'status': 'FAILURE', 'property': o['name'], 'description': o['desc'], 'trace': o.get('trace')} for o in res.failed]}]
+            extra['bounded_cmd'] = res.cmds[-1] if res.cmds else ''
+            extra['bounded_s'] = round(res.solver_s, 1)
+        else:
+            rc, out, err, dt = E.sh(cmd, int(cfg.get('bounded_timeout', '240')))
+            extra['bounded_cmd'] = cmd
+            extra['bounded_s'] = round(dt, 1)
+            try:
+                js = json.loads(out)
+            except Exception:
+                return False, 'bounded search gave no parseable output: ' + (err or out)[-300:], extra
         trace = None
         failed = []
         for item in js:
@@ -599,3 +659,114 @@ def rerun(path):
         return 1 if (rc == 1 or 'AddressSanitizer' in (out or '')) else 0
     finally:
         shutil.rmtree(wd, ignore_errors=True)
+
+
+# ---------------------------------------------------------------- bounded mode as a first-class (labelled) check
+def run_bounded_unit(unit, cfgname, workdir, tier='quick', mutate=None):
+    """mode: bounded / harness: generated -- the function contract (+ @@fullpre / @@fullpost with loops) is checked on
+    constant-size symbolic arrays with all loops unwound (unwinding assertions on). Never counted as proved."""
+    sp = unit.spec
+    cfg = sp.configs[cfgname]
+    res = E.Result(unit, cfgname)
+    res.mode = 'bounded'
+    res.backend = cfg.get('solver', 'sat')
+    try:
+        ctext = unit.extract(mutate=mutate)
+        bound = int(cfg.get('bound_thorough' if tier == 'thorough' and 'bound_thorough' in cfg else 'bound', BOUND))
+        bd = Bounded(sp, unit, cfgname, ctext, bound=bound)
+        csrc = bd.c_source()
+    except X.ExtractError as e:
+        res.status, res.reason = 'inconclusive', 'extraction broke: %s' % e
+        return res
+    except (ValueError, IndexError, KeyError, AssertionError) as e:
+        res.status, res.reason = 'inconclusive', 'extraction broke (%s: %s)' % (type(e).__name__, e)
+        return res
+    unit.bounded = bd
+    cfile = os.path.join(workdir, '%s.%s.bounded.c' % (sp.name, cfgname))
+    open(cfile, 'w').write(csrc)
+    res.cfile = cfile
+    inc = '-I%s -I%s' % (os.path.join(HERE, 'shim'), os.path.join(VERIF, 'contracts', 'lib'))
+    qdefs = ' '.join(E.shlex.quote(d) for d in cfg.get('defs', '').split())
+    unwind = cfg.get('unwind_thorough' if tier == 'thorough' and 'unwind_thorough' in cfg else 'unwind', str(bound + 2))
+    tmo = int(cfg.get('timeout_thorough' if tier == 'thorough' else 'timeout', cfg.get('timeout', '300')))
+    uset = ''
+    us_key = 'unwindset_thorough' if tier == 'thorough' and 'unwindset_thorough' in cfg else 'unwindset'
+    if cfg.get(us_key):
+        ids = {l.label: l.cbmc_id for l in X.find_loops(ctext)}
+        items = []
+        for it in cfg[us_key].split():
+            lab, k = it.split(':')
+            if lab in ids:
+                items.append('%s.%d:%s' % (sp.meta.get('cname'), ids[lab], k))
+        if items:
+            uset = ' --unwindset ' + ','.join(items)
+    cmd = ('cbmc %s %s %s --function bharness --nondet-static --unwind %s' + uset + ' --unwinding-assertions --bounds-check --pointer-check --div-by-zero-check --trace --json-ui -DVERIF_BOUNDED=1 %s') % (
+        inc, qdefs, cfile, unwind, E.SOLVERS.get(res.backend, ''))
+    res.cmds.append(cmd)
+    rc, out, err, dt = E.sh(cmd, tmo)
+    res.solver_s = dt
+    if err == 'TIMEOUT' and rc == -9:
+        res.status, res.reason = 'inconclusive', 'cbmc timeout after %ds (bounded)' % tmo
+        return res
+    try:
+        js = json.loads(out)
+    except Exception:
+        res.status, res.reason = 'inconclusive', 'cbmc output not parseable (rc=%s): %s' % (rc, (out + err)[-400:])
+        return res
+    results = None
+    msgs = []
+    for item in js:
+        if 'result' in item:
+            results = item['result']
+        if 'messageText' in item:
+            msgs.append(item['messageText'])
+    res.messages = msgs
+    if results is None:
+        res.status, res.reason = 'inconclusive', 'cbmc gave no result list: ' + '\n'.join(msgs)[-500:]
+        return res
+    for r in results:
+        ob = {'name': r.get('property'), 'desc': r.get('description'), 'status': r.get('status'),
+              'line': (r.get('sourceLocation') or {}).get('line'), 'fn': (r.get('sourceLocation') or {}).get('function')}
+        if 'trace' in r:
+            ob['trace'] = r['trace']
+        res.obligations.append(ob)
+    res.failed = [o for o in res.obligations if o['status'] != 'SUCCESS']
+    nb = re.findall(r'no body for (?:function|callee) (\S+)', '\n'.join(msgs))
+    if nb:
+        res.status, res.reason = 'inconclusive', 'function without body: %s' % sorted(set(nb))
+        return res
+    unwf = [o for o in res.failed if 'unwinding assertion' in (o['desc'] or '')]
+    if unwf:
+        res.status, res.reason = 'inconclusive', 'unwinding bound too small: %s' % unwf[0]['desc']
+        return res
+    if not res.obligations:
+        res.status, res.reason = 'inconclusive', 'zero obligations'
+        return res
+    res.status = 'fail' if res.failed else 'ok'
+    return res
+
+
+def bounded_reach_probe(unit, cfgname, workdir):
+    """vacuity guard for bounded units: the end of bharness must be reachable (assumptions satisfiable)."""
+    sp = unit.spec
+    bd = getattr(unit, 'bounded', None)
+    if bd is None:
+        return None
+    csrc = bd.c_source().rstrip()
+    assert csrc.endswith('}')
+    csrc = csrc[:-1] + '  __CPROVER_assert(0, "reach_end");\n}\n'
+    cfile = os.path.join(workdir, '%s.%s.bounded.probe.c' % (sp.name, cfgname))
+    open(cfile, 'w').write(csrc)
+    cfg = sp.configs[cfgname]
+    inc = '-I%s -I%s' % (os.path.join(HERE, 'shim'), os.path.join(VERIF, 'contracts', 'lib'))
+    qdefs = ' '.join(E.shlex.quote(d) for d in cfg.get('defs', '').split())
+    cmd = 'cbmc %s %s %s --function bharness --nondet-static --unwind %s --no-unwinding-assertions --property bharness.assertion.%s -DVERIF_BOUNDED=1 %s' % (
+        inc, qdefs, cfile, cfg.get('unwind', str(bd.bound + 2)), '%d', E.SOLVERS.get(cfg.get('solver', 'sat'), ''))
+    # the reach assertion is the last assertion of bharness
+    n = csrc[csrc.index('void bharness'):].count('__CPROVER_assert(')
+    rc, out, err, dt = E.sh(cmd % n, int(cfg.get('timeout', '300')))
+    if 'reach_end: FAILURE' in out or re.search(r'reach_end.*FAILURE', out):
+        return None
+    if 'VERIFICATION SUCCESSFUL' in out:
+        return 'vacuous: end of bounded harness unreachable (contradictory assumptions?)'
+    return 'probe inconclusive: ' + (out + err)[-200:]
